@@ -28,7 +28,7 @@ def obligations(tier):
     # the same agreement at every point of a live history (open-bucket merges at constant length, lifespan trimming,
     # recalculation): an accessor that answers from remembered state goes stale exactly there
     for kind, name, kw, fields in SPECS[:4] + SPECS[7:8]:
-        for mode in ("T2", "lifespan", "maintenance"):
+        for mode in ("T2", "lifespan", "maintenance", "T2-cotenant"):
             n = 6 if tier == "quick" else 8
             obs.append(Ob(f"live/{mode}/{spec_name((kind, name, kw))}/n={n}", dict(spec=[kind, name, kw], fields=fields, mode=mode, n=n), CFG, fn="run_live", weight=n * 4, budget_s=600, max_paths=100000))
     return obs
@@ -46,6 +46,14 @@ def agree(ctx, label, ind, hx, names):
                 d = d.get(nm.split(".")[1]) if isinstance(d, dict) else d
             direct.append(d)
         ctx.equal(f"{label}: as_list==direct[{short}]", ind.as_list(nm), direct)
+        # direct inspection of the candles the Hexital hands out for the member's timeframe
+        via_hx = []
+        for c in (hx.candles(ind.timeframe) if ind.timeframe else hx.candles()):
+            d = c.indicators.get(name)
+            if "." in nm:
+                d = d.get(nm.split(".")[1]) if isinstance(d, dict) else d
+            via_hx.append(d)
+        ctx.equal(f"{label}: Hexital.candles(timeframe) inspected==direct[{short}]", via_hx, direct)
         ctx.equal(f"{label}: Hexital.reading_as_list==direct[{short}]", hx.reading_as_list(nm), direct)
         if direct:
             ctx.equal(f"{label}: reading()==direct[-1][{short}]", ind.reading(nm), direct[-1])
@@ -70,17 +78,24 @@ def run_live(ctx, P):
     n, mode, fields = P["n"], P["mode"], P["fields"]
     cs = mk_candles(ctx, n)
     extra, hkw = {}, {}
-    if mode == "T2":
+    if mode in ("T2", "T2-cotenant"):
         extra = dict(timeframe="T2")
     if mode == "lifespan":
         hkw = dict(candles_lifespan=timedelta(minutes=2))
     ind = build_any(spec, **extra)
-    hx = Hexital("hx", [], [ind, build("EMA", dict(period=3))], **hkw)
+    others = [build("EMA", dict(period=3))]
+    if mode == "T2-cotenant":
+        # another member lives on the same timeframe and leaves half way through
+        others.append(build("SMA", dict(period=2), timeframe="T2", name_suffix="cotenant"))
+    hx = Hexital("hx", [], [ind] + others, **hkw)
     names = [ind.name] + [f"{ind.name}.{f}" for f in (fields or [])]
     src = clone(cs)
     for k, c in enumerate(src):
         hx.append(c)
         agree(ctx, f"after append {k + 1}", ind, hx, names)
+        if mode == "T2-cotenant" and k == n // 2:
+            hx.remove_indicator(others[-1].name)
+            agree(ctx, "after the co-tenant was removed", ind, hx, names)
         if mode == "maintenance" and k == n - 2:
             hx.purge(ind.name)
             agree(ctx, "after purge", ind, hx, names)
